@@ -165,7 +165,7 @@ def eval_defs(wd, names):
     r = tlc.run_tlc(mod, cfg, d, timeout=600, workers=1)
     out = {}
     text = r["out"]
-    for m in re.finditer(r'<<"DEF", "(\w+)", ', text):
+    for m in re.finditer(r'<<\s*"DEF",\s*"(\w+)",\s*', text):
         depth = 1; i = m.end()                     # find the end of the printed tuple by bracket matching
         while depth and i < len(text):
             if text.startswith("<<", i):
